@@ -398,7 +398,18 @@ func (ts *Types) OwnedOf(t types.Type) *ownedInfo {
 	if !ts.ownedDecl[typeKey(n.Origin())] {
 		return nil
 	}
-	key := typeKey(n)
+	// one datatype per instantiation; instantiations are told apart by the sorts of their type
+	// arguments (the uninstantiated generic type counts as instantiated with its own parameters)
+	key := typeKey(n.Origin()) + "<"
+	if n.TypeArgs().Len() > 0 {
+		for i := 0; i < n.TypeArgs().Len(); i++ {
+			key += ts.SortOf(n.TypeArgs().At(i)).Name + ","
+		}
+	} else if tps := n.TypeParams(); tps != nil {
+		for i := 0; i < tps.Len(); i++ {
+			key += ts.SortOf(tps.At(i)).Name + ","
+		}
+	}
 	if oi, ok := ts.owned[key]; ok {
 		return oi
 	}
@@ -419,7 +430,7 @@ func (ts *Types) OwnedOf(t types.Type) *ownedInfo {
 		f := st.Field(i)
 		var fs *smt.Sort
 		self := false
-		if fpt, ok := f.Type().Underlying().(*types.Pointer); ok && types.Identical(fpt.Elem(), n) {
+		if fpt, ok := f.Type().Underlying().(*types.Pointer); ok && sameOrigin(fpt.Elem(), n) {
 			fs = oi.Sort
 			self = true
 		} else {
@@ -431,6 +442,11 @@ func (ts *Types) OwnedOf(t types.Type) *ownedInfo {
 	}
 	ts.D.AddSort(oi.Sort)
 	return oi
+}
+
+func sameOrigin(a types.Type, n *types.Named) bool {
+	an, ok := a.(*types.Named)
+	return ok && an.Origin() == n.Origin()
 }
 
 func (oi *ownedInfo) NilTerm() *smt.Term { return smt.MkCtor(oi.Sort, oi.Nil) }
